@@ -171,10 +171,12 @@ cdef inline bint validate_union(
     if isinstance(datum, tuple) and not options.get("disable_tuple_notation"):
         (name, datum) = datum
         for candidate in schema:
-            if extract_record_type(candidate) == "record":
+            # Same naming as the writer uses for (name, value) tuples
+            extracted_type = extract_record_type(candidate)
+            if extracted_type in const.NAMED_TYPES:
                 schema_name = candidate["name"]
             else:
-                schema_name = candidate
+                schema_name = extracted_type
             if schema_name == name:
                 return _validate(
                     datum,
